@@ -71,7 +71,7 @@ def run():
     n, s = K.triple_fn(*t)
     names.append(n)
     src += s
-  res = kernels.run_kernels(out, "Unify", src, names, 1800 if thorough else 400, replay_k)
+  res = kernels.run_kernels(out, "Unify", src, names, 3600 if thorough else 1500, replay_k)
   confirmed = [n for n in names if res[n].get('verdict') == 'confirmed']
   out.coverage.update({
       'evaluations': len(names),
